@@ -184,6 +184,18 @@ chk("C10", "model_checking",
     "TLA+ spec Detector.tla (exact tilt and ray) model-checked by TLC + pixel-first exact construction replayed into xfab.detector",
     "DESIGN.md section 7 C10")
 
+chk("C07", "model_checking",
+    "StructFac.tla accumulates the structure-factor sum one symmetry operation per step on exact rational positions (phase indices "
+    "modulo N) for all 237 settings; TLC checks orbit-stabiliser, that composing with an operation permutes the operations (the closure "
+    "fact F(hR) = F(h) e^{-2 pi i h.t} rests on), exact cancellation of the phases of extinct reflections and Friedel symmetry, and emits "
+    "for every operation the rotated index hR_k, the exact shift h.t_k in 24ths and the extinction flag. The real StructureFactor is then "
+    "tested metamorphically with atoms at generic positions (Uiso and generic positive-definite Uani, fractional occupancies) in "
+    "conforming cells: F(hR_k) against F(h) times the exact phase factor, F = 0 on extinct reflections, F(-h) = conj F(h).",
+    "Trusted: TLC; exported tables (C04); tolerance scaled by scattering power and by the 6-digit thirds of the tables. The identity is "
+    "checked on sampled reflections/operations (all operations in the thorough tier).",
+    "TLA+ spec StructFac.tla (exact phases, rotated indices and shifts) model-checked by TLC + metamorphic replay into StructureFactor",
+    "DESIGN.md section 7 C07")
+
 ALL = ["C%02d" % i for i in range(1, 21)]
 
 
